@@ -126,6 +126,7 @@ type pathCtx struct {
 	funcs      map[string][]hashRec
 	decimals   map[*Term]sstr
 	sigs       []sigRec
+	mapReverse bool
 	symMaps    map[uintptr]*[]symEntry
 	symMapKeep []map[value]value
 	bech       []bechRec
